@@ -10,6 +10,8 @@ import (
 	"time"
 )
 
+var origPATH = os.Getenv("PATH")
+
 func main() {
 	// the loader shells out to `go list`; it must be the go1.26.8 toolchain
 	os.Setenv("PATH", "/opt/veriftools/go1.26.8/bin:"+os.Getenv("PATH"))
